@@ -50,8 +50,8 @@ def check(ctx, run):
     if nov < 2:
         run.broke("fewer than 2 runOneTest implementations found")
     gn = prog.fn("UtestShell::getNext")
-    rets = [render(gn, gn.node(n.get("value"))) for n in gn.walk() if n["k"] == "ReturnStmt"]
-    run.ob("R1", "getNext returns next_", gn.site, rets == ["next_"], witness=rets)
+    rets = getter_fold(prog, gn, "next_")
+    run.ob("R1", "getNext returns next_ (folded)", gn.site, rets == 424242, witness=rets)
     ws = sorted({f.qn for f, n in field_writers(prog, "UtestShell::next_") if f.file.startswith(("src/", "include/"))})
     run.ob("R1", "next_ is written only by the constructors and addTest", "include/CppUTest/Utest.h:UtestShell::next_", set(ws) <= {"UtestShell::addTest", "UtestShell::UtestShell"}, witness=ws)
     cs = sorted({f.qn for f, c in callers_of(prog, "UtestShell::addTest") if f.file.startswith("src/")})
@@ -231,21 +231,36 @@ def check(ctx, run):
         want = [(100 + k, (100 + k + 1) if k + 1 < n else 0) for k in range(n - 1, -1, -1)]
         run.ob("R3", "relink of %d entries chains entry k to entry k+1 and the last to NULL" % n, rl.site, got == want, witness={"links": got if isinstance(got, str) else [list(x) for x in got]})
     ge = prog.fn(ARR + "::get")
-    run.analysed(ge)
-    okg = True
-    for p in enumerate_paths(ge):
-        oob = p.val().get("(%s < count_)" % ge.params[0]["name"])
-        r = render(ge, ge.node(p.ret.get("value"))) if p.ret is not None else None
-        if oob is True:
-            okg = okg and r == "arrayOfTests_[%s]" % ge.params[0]["name"]
-        elif oob is False:
-            okg = okg and r == "NULL"
-        else:
-            okg = False
-    run.ob("R3", "get is bounds-checked against count_", ge.site, okg)
     gf = prog.fn(ARR + "::getFirstTest")
-    rets = [render(gf, gf.node(n.get("value"))) for n in gf.walk() if n["k"] == "ReturnStmt"]
-    run.ob("R3", "getFirstTest returns entry 0", gf.site, rets == ["get(0)"], witness=rets)
+    run.analysed(ge)
+    run.analysed(gf)
+    AINL = {g.qn for g in prog.functions.values() if g.qn.startswith(ARR + "::")}
+
+    def fold_get(f, count, args):
+        env = {"arrayOfTests_": ("ptr", "ARR", 0), "count_": count}
+        env.update({"ARR[%d]" % i_: 1000 + i_ for i_ in range(count)})          # entries behind count_ do not exist
+        env.update(dict(zip([q["name"] for q in f.params], args)))
+        ev = Evaluator(prog, f, env=env)
+        ev.inline = AINL
+        try:
+            ev.run_blocks(f.entry, max_steps=300)
+            return getattr(ev, "ret", None)
+        except Unknown as u:
+            return "unknown: %s" % u
+    bad = None
+    for count in (0, 1, 3):
+        for i_ in (0, 1, 2, 3, 5, (1 << 64) - 1):
+            r = fold_get(ge, count, [i_])
+            want = 1000 + i_ if i_ < count else 0
+            if r != want and bad is None:
+                bad = "get(%d) with %d entries folds to %s, expected %s" % (i_, count, r, "entry %d" % i_ if i_ < count else "NULL")
+    run.ob("R3", "get folded over (entries, index): the entry inside the array, NULL outside it, nothing read behind the last entry", ge.site, bad is None, witness=bad or "18 cases", what=bad or "")
+    bad = None
+    for count in (0, 1, 3):
+        r = fold_get(gf, count, [])
+        if r != (1000 if count else 0) and bad is None:
+            bad = "getFirstTest with %d entries folds to %s" % (count, r)
+    run.ob("R3", "getFirstTest folded: entry 0, NULL for an empty array", gf.site, bad is None, witness=bad or "3 cases", what=bad or "")
     for nm, op in (("shuffleTests", "shuffle"), ("reverseTests", "reverse")):
         f = prog.fn("TestRegistry::" + nm)
         run.analysed(f)
